@@ -2,7 +2,7 @@
 harness JSON of messages, operations, observations and middleware
 descriptions as Gallina terms over Msg.v / Mw.v / MwCheck.v."""
 import copy
-from coqterm import cbool, cZ, clist, copt, cpair, cevent, cfilters
+from coqterm import cbool, cZ, cnat, clist, copt, cpair, cevent, cfilters
 
 KINDS = {
     "max_subs": "MaxSubs", "max_filters": "MaxFilters", "max_limit": "MaxLimit", "max_subid": "MaxSubIDLen",
@@ -55,7 +55,26 @@ def c_smsg(I, m):
 def c_op(I, op):
     if op["d"] == "c":
         return "(OClient %s)" % c_cmsg(I, op["c"])
-    return "(OServer %s)" % c_smsg(I, op["m"])
+    if op["d"] == "s":
+        return "(OServer %s)" % c_smsg(I, op["m"])
+    raise Broken(op["d"])
+
+
+def is_life(op):
+    return op["d"] in ("start", "end")
+
+
+def c_lop(I, op):
+    """an operation of a history in which connections come and go"""
+    if op["d"] == "start":
+        return "LStart"
+    if op["d"] == "end":
+        return "LEnd"
+    return "(LOp %s)" % c_op(I, op)
+
+
+def c_life_history(I, ops):
+    return clist(ops, lambda o: cpair(cnat(o.get("s", 0)), c_lop(I, o)), "(nat * lop)%type")
 
 
 def c_obs(I, ob):
@@ -93,6 +112,17 @@ def simpler_msgs(ops):
         if not m:
             continue
         key = "c" if op["d"] == "c" else "m"
+        e = m.get("e")
+        if e and e.get("org"):
+            # an unusual created_at -> the plain one (the run's clock)
+            o2 = copy.deepcopy(ops)
+            o2[i][key]["e"]["org"] = ""
+            o2[i][key]["e"]["dts"] = 0
+            yield o2
+        if e and e.get("kind") not in (None, 1):
+            o2 = copy.deepcopy(ops)
+            o2[i][key]["e"]["kind"] = 1
+            yield o2
         if m.get("fs"):
             for j in range(len(m["fs"])):
                 o2 = copy.deepcopy(ops)
@@ -134,7 +164,84 @@ def fewer_ops(ops):
 
 
 def op_label(op):
+    if is_life(op):
+        return "life:" + op["d"]
     return ("c:" + op["c"]["t"]) if op["d"] == "c" else ("s:" + op["m"]["t"])
+
+
+def life_stats(c):
+    """connections of a case: how many began, how many began after another one of the
+    same middleware value had ended, how many of those after one that ended with state
+    (a forwarded REQ not closed, an EVENT seen) -- the shapes a leak between
+    connections needs"""
+    began = after_end = after_dirty_end = 0
+    dirty = {}            # slot -> the live connection has state
+    ended = dirty_ended = False
+    for op, ob in zip(c.get("ops") or [], c.get("obs") or []):
+        s = op.get("s", 0)
+        if op["d"] == "start":
+            began += 1
+            after_end += 1 if ended else 0
+            after_dirty_end += 1 if dirty_ended else 0
+            dirty[s] = False
+        elif op["d"] == "end":
+            if s in dirty:
+                ended = True
+                dirty_ended = dirty_ended or dirty.pop(s)
+        elif s in dirty:
+            if op["d"] == "c" and op["c"]["t"] in ("REQ", "EVENT") and ob.get("down"):
+                dirty[s] = True
+            if op["d"] == "s" and op["m"]["t"] == "EVENT":
+                dirty[s] = True
+    return began, after_end, after_dirty_end
+
+
+def count_life(cases, d):
+    d.setdefault("connections_begun", 0)
+    d.setdefault("connections_begun_after_another_ended", 0)
+    d.setdefault("connections_begun_after_another_ended_with_state", 0)
+    d.setdefault("cases_with_a_connection_after_one_ended_with_state", 0)
+    for c in cases:
+        a, b, e = life_stats(c)
+        d["connections_begun"] += a
+        d["connections_begun_after_another_ended"] += b
+        d["connections_begun_after_another_ended_with_state"] += e
+        d["cases_with_a_connection_after_one_ended_with_state"] += 1 if e else 0
+    return d
+
+
+def unusual_created_at(cases, d):
+    """EVENT messages by the origin of their created_at"""
+    for c in cases:
+        for op in c.get("ops") or []:
+            m = op.get("c") or op.get("m") or {}
+            e = m.get("e")
+            if e and e.get("org"):
+                k = "created_at_" + e["org"]
+                d[k] = d.get(k, 0) + 1
+            elif e and abs(e.get("dts", 0)) > 10 ** 9:
+                d["created_at_saturating_duration"] = d.get("created_at_saturating_duration", 0) + 1
+    return d
+
+
+def fewer_connections(c):
+    """smaller life cycles: drop a connection with all its operations; drop an end (the
+    connection stays); renumber when the highest slot is unused"""
+    ops = c.get("ops") or []
+    n = c.get("nsess", 1) or 1
+    for s in range(n):
+        keep = [o for o in ops if o.get("s", 0) != s]
+        if len(keep) < len(ops):
+            yield dict(c, ops=keep)
+    for i, o in enumerate(ops):
+        if o["d"] == "end":
+            yield dict(c, ops=ops[:i] + ops[i + 1:])
+    used = {o.get("s", 0) for o in ops}
+    if n > 1:
+        for s in range(n):
+            if s not in used:
+                yield dict(c, nsess=n - 1, ops=[dict(o, s=o["s"] - 1 if o.get("s", 0) > s else o.get("s", 0)) for o in ops])
+                break
 
 
 def count_ops(cases, d):
@@ -144,6 +251,8 @@ def count_ops(cases, d):
             d["ops_" + lab] = d.get("ops_" + lab, 0) + 1
             if ob.get("timeout"):
                 d["timeouts"] = d.get("timeouts", 0) + 1
+            if is_life(op):
+                continue
             if op["d"] == "c":
                 if ob.get("down"):
                     d["client_msgs_forwarded"] = d.get("client_msgs_forwarded", 0) + 1
